@@ -16,7 +16,12 @@ Inductive case :=
        (replies : list Z)              (* heights answered in phase one, in order *)
        (trace : list obs)              (* initial burst sorted by height, then controller order *)
        (finished : bool)               (* the handler returned within the budget *)
-       (odd : bool).                   (* the controller saw something it has no place for *)
+       (odd : bool)                    (* the controller saw something it has no place for *)
+(** the per-peer limit: one healthy peer, more heights than its limit.  Observed:
+    how many requests the peer holds when every goroutine either waits for an
+    answer or sleeps (burst), the largest number of simultaneously outstanding
+    requests during the whole task, how many distinct heights were delivered. *)
+| CaseLimit (nheights : nat) (burst_held maxconc : Z) (ndelivered : nat) (finished : bool).
 
 Definition cfg_of (pids : list pid_entry) (conn : list nat) (lat : list N) (adv : list Z)
            (beh : list (list resp)) (st en : Z) : config :=
@@ -172,8 +177,23 @@ Definition model_trace (c : config) (replies : list Z) (trace : list obs) : opti
 Definition asked_silent (c : config) (tr : list obs) : bool :=
   existsb (fun o => match o with OReq h p => is_stall (c_beh c p h) | _ => false end) tr.
 
+Definition count_asking (s : state) : Z :=
+  Z.of_nat (length (filter (fun G => match g_pc G with PReq _ => true | _ => false end) (s_gs s))).
+
 Definition check_case (cs : case) : verdict :=
   match cs with
+  | CaseLimit nh burst_held maxconc ndel finished =>
+      let c := cfg_of [PPeer 0] [] [1%N] [Z.of_nat nh + 5] [repeat ROk nh] 1 (Z.of_nat nh) in
+      let ts := init_job c in
+      let lim := limit_of (length ts) in
+      (* the model's burst: every goroutine sorts and picks once *)
+      let held := match exec_strict c ts (init_state ts (heights c)) (burst nh) with
+                  | Some s => count_asking s
+                  | None => -1
+                  end in
+      let m := (burst_held =? held) && (maxconc =? Z.min (Z.of_nat nh) lim) && finished && (ndel =? nh)%nat in
+      let s := finished && (maxconc <=? lim) && (ndel =? nh)%nat in
+      (m, s, if s then 0%N else 9%N)
   | Case pids conn lat adv beh st en ak replies trace finished odd =>
       let c := cfg_of pids conn lat adv beh st en in
       (* at most 20 heights (the burst stays below the per-peer limit); a wrong-height answer really has another height *)
